@@ -1496,7 +1496,10 @@ private:
           continue;
         }
         std::vector<std::uint8_t> value(valLen);
-        std::memcpy(value.data(), ptr, valLen);
+        if (valLen > 0) // data() of an empty vector may be null: memcpy(null, p, 0) is UB
+        {
+          std::memcpy(value.data(), ptr, valLen);
+        }
         _kv[key] = std::move(value);
         _expiry.erase(key); // plain set clears any prior expiry (Redis-style)
       }
@@ -1521,7 +1524,10 @@ private:
           continue; // corrupt → drop
         }
         std::vector<std::uint8_t> value(valLen);
-        std::memcpy(value.data(), ptr, valLen);
+        if (valLen > 0) // data() of an empty vector may be null: memcpy(null, p, 0) is UB
+        {
+          std::memcpy(value.data(), ptr, valLen);
+        }
         const auto exp = fromEpochMs(expiryMs);
         if (exp > now)
         {
